@@ -357,6 +357,26 @@ func c18(c *h.Ctx) {
 		one(sink, other, "back", "Switch(b); Switch(a); log")
 	}
 
+	// 3c'. the level loggers are exported variables: an application that wants the info level to be visible points
+	// it at the trace logger. Calls through either name then emit their line (the level is a property of the logger
+	// object, not of the name it is reached by).
+	{
+		saved := ol.Info
+		ol.Info = ol.Trace
+		sink.take()
+		ol.I(nil, "info-made-visible")
+		ol.If(ctxs[1].v, "%v", "info-f")
+		ol.T(nil, "trace-still-there")
+		ws := sink.take()
+		ol.Info = saved
+		ok := len(ws) == 3
+		for _, w := range ws {
+			ok = ok && bytes.HasPrefix(w, []byte("[trace] "))
+		}
+		c.Hold(ok, "one_line.one_write", "logger: Info = Trace; I(nil, …); If(ctx, …); T(nil, …)", fmt.Sprintf("%d lines", len(ws)), "3 lines labelled [trace]")
+		c.Case("line/info-pointed-at-trace", "Info = Trace", true)
+	}
+
 	// 3d. a writer that is NOT an io.Closer (a bytes.Buffer, a network connection wrapper): every call still makes
 	// exactly one write to it, a whole line that begins with the level label — nothing else (no colour escapes, which
 	// are for the console) ever reaches the application's writer
